@@ -5,7 +5,7 @@ import itertools
 import string
 
 from mc import dbe
-from mc.core import pmap, short_hash
+from mc.core import pmap, short_hash, run_tasks
 from props.deccommon import MODELS, check_ast, check_pack
 from ref import decmodel
 
@@ -192,8 +192,7 @@ def run(ctx):
     A = [("structure", c, structure_ast(c, rot)) for c in structure_cases(maxlen)]
     A += [("structure+other", c, structure_ast(c, rot)) for c in structure_other_cases(3 if ctx.thorough else 2)]
     ctx.log(f"A: {len(A)} unpacked structure files")
-    for r in pmap(work_unpacked, chunks(A, 40), ctx.workers):
-        ctx.absorb(r)
+    run_tasks(ctx, work_unpacked, chunks(A, 40))
     ctx.count(states=len(A), transitions=sum(len(a) for _k, _c, a in A))
     ctx.part("A-structure", files=len(A), max_blocks=maxlen, complete=True)
     ctx.sample({"part": "A", "case": A[len(A) // 2][1], "text": decmodel.render(A[len(A) // 2][2])})
@@ -224,10 +223,8 @@ def run(ctx):
         small.append(("photos-pattern", case, photos_ast(case, "")))
     ctx.log(f"B: {len(items)} packed content scenarios, {len(small)} also unpacked")
     ctx.rng.shuffle(items)
-    for r in pmap(work_packed, chunks(items, 50), ctx.workers):
-        ctx.absorb(r)
-    for r in pmap(work_unpacked, chunks(small, 40), ctx.workers):
-        ctx.absorb(r)
+    run_tasks(ctx, work_packed, chunks(items, 50))
+    run_tasks(ctx, work_unpacked, chunks(small, 40))
     ctx.count(states=stats["nodes"], transitions=stats["choices"])
     ctx.part("B-content", scenarios=len(items), unpacked=len(small), deviation_bound=3 if ctx.thorough else 2,
              per_dimension_max=stats["per_dimension_max"], models=len(MODELS))
@@ -236,11 +233,9 @@ def run(ctx):
     # C: label alphabet (complete)
     labs = labels()
     C = [("label", lab, label_ast(lab, f"_{i}")) for i, lab in enumerate(labs)]
-    for r in pmap(work_packed, chunks(C, 60), ctx.workers):
-        ctx.absorb(r)
+    run_tasks(ctx, work_packed, chunks(C, 60))
     Cs = [("label", lab, label_ast(lab, None)) for lab in labs if len(lab) == 2 or ctx.thorough]
-    for r in pmap(work_unpacked, chunks(Cs, 40), ctx.workers):
-        ctx.absorb(r)
+    run_tasks(ctx, work_unpacked, chunks(Cs, 40))
     ctx.count(states=len(C), transitions=3 * len(C))
     ctx.part("C-labels", labels=len(labs), unpacked=len(Cs), complete=True)
     ctx.sample({"part": "C", "label": labs[300], "text": decmodel.render(C[300][2])})
@@ -248,10 +243,8 @@ def run(ctx):
     # D: numeric literal forms (complete)
     forms = numeric_forms()
     D = [("numeric", f, numeric_ast(f, f"_{i}")) for i, f in enumerate(forms)]
-    for r in pmap(work_packed, chunks(D, 54), ctx.workers):
-        ctx.absorb(r)
-    for r in pmap(work_unpacked, chunks([("numeric", f, numeric_ast(f, "")) for f in forms], 27), ctx.workers):
-        ctx.absorb(r)
+    run_tasks(ctx, work_packed, chunks(D, 54))
+    run_tasks(ctx, work_unpacked, chunks([("numeric", f, numeric_ast(f, "")) for f in forms], 27))
     ctx.count(states=len(D), transitions=len(D))
     ctx.part("D-numeric", forms=len(forms), complete=True)
     ctx.extra["bound_completed"] = {"block_sequences_up_to": maxlen, "content_deviations": 3 if ctx.thorough else 2}
